@@ -11,7 +11,16 @@
 // mode "hop": a raw TCP/IPC peer is THE partner of a PAIRv1 socket (cooked or
 //   raw) and sends frames with crafted hop words x NNG_OPT_MAXTTL 1..15, and
 //   frames shorter than a hop word; it also reads what the socket puts on
-//   the wire.
+//   the wire.  Besides the lock-step frames it sends bursts of 3-6 frames
+//   (valid / over-TTL mixed, ending in a valid or a malformed frame) in one
+//   write, so that they meet a full receive queue, a parked receive or a
+//   socket that is sending.
+// stream additions: senders whose sends time out / are cancelled / get EAGAIN
+//   and are retried with the same message, receivers whose receives time out /
+//   are cancelled / poll with NONBLOCK; in a quarter of the cases the only
+//   connection is closed under traffic (on either socket) and re-established
+//   by the dialer: order and at-most-once must hold across the cut, and every
+//   message submitted after the successor is attached must arrive.
 //
 // Oracle (exactly the property):
 //   one-peer   - per socket, pipes between ADD_POST and REM_POST never > 1;
@@ -117,8 +126,9 @@ mon_attach(nng_socket s, pmon *m, const char *proto)
 }
 
 typedef struct {
-	long post, rem_live, rem_refused;
-	int  live, maxlive;
+	long     post, rem_live, rem_refused;
+	int      live, maxlive;
+	uint32_t first_id;
 } monsnap;
 
 static monsnap
@@ -131,6 +141,7 @@ mon_get(pmon *m)
 	s.rem_refused = m->rem_refused;
 	s.live        = m->live;
 	s.maxlive     = m->maxlive;
+	s.first_id    = m->live > 0 ? m->ids[0] : 0;
 	pthread_mutex_unlock(&m->mtx);
 	return s;
 }
@@ -310,6 +321,7 @@ typedef struct {
 
 static const pkind pkinds[] = {
 	{ "pair0", nng_pair0_open, nng_pair0_open, false, false, false, 0x10 },
+	{ "pair0raw", nng_pair0_open_raw, nng_pair0_open_raw, false, false, false, 0x10 },
 	{ "pair1", nng_pair1_open, nng_pair1_open, true, false, false, 0x11 },
 	{ "pair1raw", nng_pair1_open_raw, nng_pair1_open_raw, true, true, true, 0x11 },
 	{ "pair1mix", nng_pair1_open, nng_pair1_open_raw, true, false, true, 0x11 },
@@ -333,15 +345,18 @@ struct dirst {
 	nng_socket tx, rx;
 	bool       tx_raw, rx_raw;
 	uint32_t   tag;
-	int        n;
+	int        n;    // messages of the stream proper
+	int        ntot; // n, plus a trailer sent after the connection was replaced
 	bool       bulk;
 	uint64_t   key;
-	int        smode, swin; // 0 blocking, 1 aio window
-	int        rmode, rwin; // 0 blocking, 1 one aio, 2 aio ring
+	int        smode, swin; // SM_*
+	int        rmode, rwin; // RM_*
 	int        pause_at[3], npause;
 	int        sjit, rjit; // 1-in-N chance of a small sleep per message (0 off)
 
 	_Atomic long submitted, accepted, received;
+	_Atomic long send_fails, recv_fails; // timed out / cancelled / EAGAIN attempts
+	_Atomic long lost_at_cut;            // seqs skipped around a replaced connection
 	_Atomic int  in_send, in_recv;
 	_Atomic int  send_done, recv_done;
 	_Atomic int  send_rv, recv_rv;
@@ -372,6 +387,10 @@ struct scase {
 	_Atomic int  sbuf[2], rbuf[2]; // current values, [0]=A [1]=B
 	_Atomic bool sb_grown[2];
 	_Atomic int  abort;
+	bool         replace;       // the connection is cut and re-established mid-stream
+	_Atomic int  cuts;          // connections cut on purpose so far
+	_Atomic int  cut_started, cut_done, cut_skipped;
+	_Atomic long cut_hi[2];     // per direction: sends submitted before the successor was attached
 	dirst        d[2];
 	lsn          lsns[4];
 	int          nlsn;
@@ -380,10 +399,21 @@ struct scase {
 	char         ctx[96];
 };
 
+// sender styles: blocking call / window of outstanding aios / one aio with a
+// 1-3 ms timeout or an explicit cancel, retried with the same message until
+// accepted / NNG_FLAG_NONBLOCK retried on EAGAIN
+enum { SM_BLOCK = 0, SM_WINDOW, SM_SHORT, SM_NONBLOCK, SM_N };
+// receiver styles: blocking call / one aio / ring of posted aios / one aio
+// with a 1-15 ms timeout or an explicit cancel, retried / NONBLOCK polling
+enum { RM_BLOCK = 0, RM_AIO, RM_RING, RM_SHORT, RM_NONBLOCK, RM_N };
+static const char *sm_names[SM_N] = { "blk", "aio", "short", "nonblock" };
+static const char *sm_long[SM_N]  = { "blocking", "aio-window", "short-timeout", "nonblock" };
+static const char *rm_names[RM_N] = { "blk", "aio", "ring", "short", "nonblock" };
+
 static const char *
 smode_name(const dirst *d)
 {
-	return d->smode == 0 ? "blk" : "aio";
+	return sm_names[d->smode];
 }
 
 static size_t
@@ -425,13 +455,21 @@ make_msg(const dirst *d, int i)
 static bool
 main_pipes_up(scase *c)
 {
+	// (a connection cut on purpose is announced in c->cuts before the cut)
+	long    cuts = atomic_load(&c->cuts);
 	monsnap a = mon_get(&c->ma), b = mon_get(&c->mb);
-	return a.rem_live == 0 && b.rem_live == 0 && a.live == 1 && b.live == 1;
+	// (the dialling side may have attached and lost refused attempts while
+	// the listening side had not yet noticed that the old peer was gone)
+	return a.live == 1 && b.live == 1 && a.rem_live == cuts &&
+	    (cuts != 0 ? b.rem_live >= cuts : b.rem_live == 0);
 }
 
-// returns true if message i is exactly the expected one
-static bool
-check_msg(dirst *d, int i, nng_msg *m)
+// Judge a received message when seq 'exp' is the next one expected.
+// Returns the sequence number that was accepted (== exp, or larger when the
+// skipped ones may legitimately have been lost with a replaced connection),
+// or -1 when the stream is broken (verdict already recorded where due).
+static long
+check_msg(dirst *d, long exp, nng_msg *m)
 {
 	scase   *c   = d->c;
 	uint32_t tag = 0;
@@ -439,43 +477,78 @@ check_msg(dirst *d, int i, nng_msg *m)
 	int      rc  = vf_body_check(nng_msg_body(m), nng_msg_len(m), &tag, &seq);
 	if (rc != 0) {
 		vf_violation("C08/order/corrupt-message",
-		    "%s %s dir=%d: message %d failed its self-check (rc %d, %zu bytes)",
-		    c->pk->name, vf_tran_names[c->tran], d->dir, i, rc, nng_msg_len(m));
-		return false;
+		    "%s %s dir=%d: message at position %ld failed its self-check (rc %d, %zu bytes)",
+		    c->pk->name, vf_tran_names[c->tran], d->dir, exp, rc, nng_msg_len(m));
+		return -1;
 	}
 	if (tag == TAG_INTRUDER) {
 		if (main_pipes_up(c)) {
 			vf_violation("C08/one-peer/intruder-message-delivered",
-			    "%s %s dir=%d: a message sent by an extra peer was delivered at position %d while the first peer stayed connected",
-			    c->pk->name, vf_tran_names[c->tran], d->dir, i);
+			    "%s %s dir=%d: a message sent by an extra peer was delivered at position %ld while the first peer stayed connected",
+			    c->pk->name, vf_tran_names[c->tran], d->dir, exp);
 		}
-		return false;
+		return -1;
 	}
 	if (tag != d->tag) {
 		vf_violation("C08/order/foreign-message",
-		    "%s %s dir=%d: message with tag %08x delivered at position %d",
-		    c->pk->name, vf_tran_names[c->tran], d->dir, tag, i);
-		return false;
+		    "%s %s dir=%d: message with tag %08x delivered at position %ld",
+		    c->pk->name, vf_tran_names[c->tran], d->dir, tag, exp);
+		return -1;
 	}
-	if (seq != (uint64_t) i) {
-		if (main_pipes_up(c)) {
-			char key[128];
-			snprintf(key, sizeof(key), "C08/order/%s/%s-senders/%s",
-			    seq < (uint64_t) i ? "duplicate-or-late" : "skipped-or-early",
-			    d->smode == 0 ? "blocking" : "aio-window",
-			    atomic_load(&c->sb_grown[d->dir]) ? "sendbuf-grown-midstream" : "sendbuf-fixed");
-			vf_violation(key,
-			    "%s %s dir=%d: expected seq %d, received seq %llu (sender %s/%d, sendbuf now %d, recvbuf %d)",
-			    c->pk->name, vf_tran_names[c->tran], d->dir, i, (unsigned long long) seq,
-			    smode_name(d), d->swin, c->sbuf[d->dir], c->rbuf[1 - d->dir]);
+	if (seq != (uint64_t) exp) {
+		char key[160];
+		bool dup = seq < (uint64_t) exp;
+		snprintf(key, sizeof(key), "C08/order/%s/%s-senders/%s%s",
+		    dup ? "duplicate-or-late" : "skipped-or-early", sm_long[d->smode],
+		    atomic_load(&c->sb_grown[d->dir]) ? "sendbuf-grown-midstream" : "sendbuf-fixed",
+		    c->replace ? "/connection-replaced" : "");
+		if (dup) {
+			// at most once and in order holds whatever happens to
+			// the connection
+			if (c->replace || main_pipes_up(c)) {
+				vf_violation(key,
+				    "%s %s dir=%d: expected seq %ld, received seq %llu again or late (sender %s/%d, receiver %s, sendbuf now %d, recvbuf %d)",
+				    c->pk->name, vf_tran_names[c->tran], d->dir, exp, (unsigned long long) seq,
+				    smode_name(d), d->swin, rm_names[d->rmode], c->sbuf[d->dir], c->rbuf[1 - d->dir]);
+			}
+			return -1;
 		}
-		return false;
+		bool lost_ok = false;
+		if (c->replace && atomic_load(&c->cut_started)) {
+			// the connection was cut on purpose: messages submitted
+			// before the successor was attached on both sides may be
+			// lost, later ones may not
+			while (!atomic_load(&c->cut_done) && !atomic_load(&c->abort)) {
+				vf_usleep(200);
+			}
+			long hi = atomic_load(&c->cut_hi[d->dir]);
+			if (atomic_load(&c->cut_done) && (long) seq - 1 < hi) {
+				lost_ok = true;
+				atomic_fetch_add(&d->lost_at_cut, (long) seq - exp);
+			} else if (atomic_load(&c->cut_done)) {
+				vf_violation("C08/lossless/lost-after-replacement",
+				    "%s %s dir=%d: expected seq %ld, received seq %llu; seqs from %ld on were submitted after the successor connection was attached on both sides (sender %s/%d, receiver %s)",
+				    c->pk->name, vf_tran_names[c->tran], d->dir, exp, (unsigned long long) seq, hi,
+				    smode_name(d), d->swin, rm_names[d->rmode]);
+				return -1;
+			}
+		}
+		if (!lost_ok) {
+			if (main_pipes_up(c) || (c->replace && !atomic_load(&c->cut_started))) {
+				vf_violation(key,
+				    "%s %s dir=%d: expected seq %ld, received seq %llu (sender %s/%d, receiver %s, sendbuf now %d, recvbuf %d)",
+				    c->pk->name, vf_tran_names[c->tran], d->dir, exp, (unsigned long long) seq,
+				    smode_name(d), d->swin, rm_names[d->rmode], c->sbuf[d->dir], c->rbuf[1 - d->dir]);
+			}
+			return -1;
+		}
 	}
+	int i = (int) seq;
 	if (nng_msg_len(m) != msg_size(d, i)) {
 		vf_violation("C08/order/corrupt-message",
 		    "%s %s dir=%d: message %d has %zu bytes, sent %zu", c->pk->name,
 		    vf_tran_names[c->tran], d->dir, i, nng_msg_len(m), msg_size(d, i));
-		return false;
+		return -1;
 	}
 	if (d->rx_raw) {
 		// raw PAIRv1 receive: header is the hop word that was on the wire
@@ -487,10 +560,10 @@ check_msg(dirst *d, int i, nng_msg *m)
 			    c->pk->name, d->dir, i, nng_msg_header_len(m),
 			    nng_msg_header_len(m) == 4 ? get32(nng_msg_header(m)) : 0, want,
 			    d->tx_raw ? "h -> h+1" : "cooked -> 1");
-			return false;
+			return -1;
 		}
 	}
-	return true;
+	return (long) seq;
 }
 
 static void
@@ -537,6 +610,17 @@ cv_wait_ms(dirst *d, int ms)
 	pthread_cond_timedwait(&d->cv, &d->mtx, &ts);
 }
 
+// With a replaced connection the tail of a stream may be lost with the old
+// connection; one trailer (seq n) submitted after the successor is attached on
+// both sides must arrive and tells the receiver that the stream is over.
+static void
+wait_cut(scase *c)
+{
+	while (!atomic_load(&c->cut_done) && !atomic_load(&c->cut_skipped) && !atomic_load(&c->abort)) {
+		vf_usleep(300);
+	}
+}
+
 static void *
 sender_thread(void *arg)
 {
@@ -544,8 +628,11 @@ sender_thread(void *arg)
 	scase *c = d->c;
 	vf_rng r;
 	vf_rng_seed(&r, d->key, 0x5e);
-	if (d->smode == 0) {
-		for (int i = 0; i < d->n && !atomic_load(&c->abort); i++) {
+	if (d->smode == SM_BLOCK) {
+		for (int i = 0; i < d->ntot && !atomic_load(&c->abort); i++) {
+			if (i == d->n) {
+				wait_cut(c);
+			}
 			jitter(&r, d->sjit);
 			nng_msg *m = make_msg(d, i);
 			atomic_fetch_add(&d->submitted, 1);
@@ -559,6 +646,78 @@ sender_thread(void *arg)
 			}
 			atomic_fetch_add(&d->accepted, 1);
 		}
+	} else if (d->smode == SM_SHORT || d->smode == SM_NONBLOCK) {
+		// A send that fails (timed out, cancelled, EAGAIN) was not sent:
+		// the message stays with the caller, who retries the same one.
+		// If the library kept or delivered it anyway the receiver sees a
+		// duplicate; if it dropped a later one, a gap.
+		nng_aio *aio = NULL;
+		if (nng_aio_alloc(&aio, NULL, NULL) != 0) {
+			vf_harness_fail("aio alloc");
+		}
+		for (int i = 0; i < d->ntot && !atomic_load(&c->abort); i++) {
+			if (i == d->n) {
+				wait_cut(c);
+			}
+			jitter(&r, d->sjit);
+			nng_msg *m  = make_msg(d, i);
+			int      rv = 0;
+			atomic_fetch_add(&d->submitted, 1);
+			for (;;) {
+				if (atomic_load(&c->abort)) {
+					rv = NNG_ECLOSED;
+					break;
+				}
+				if (d->smode == SM_NONBLOCK) {
+					rv = nng_sendmsg(d->tx, m, NNG_FLAG_NONBLOCK);
+					if (rv == NNG_EAGAIN) {
+						atomic_fetch_add(&d->send_fails, 1);
+						vf_usleep((int) vf_range(&r, 50, 400));
+						continue;
+					}
+					break;
+				}
+				bool cancel = vf_chance(&r, 1, 3);
+				nng_aio_set_timeout(aio, cancel ? NNG_DURATION_INFINITE : (nng_duration) vf_range(&r, 1, 3));
+				nng_aio_set_msg(aio, m);
+				nng_socket_send(d->tx, aio);
+				if (cancel) {
+					if (vf_chance(&r, 1, 2)) {
+						vf_usleep((int) vf_below(&r, 300));
+					}
+					nng_aio_cancel(aio);
+				}
+				nng_aio_wait(aio);
+				rv = (int) nng_aio_result(aio);
+				if (rv == 0) {
+					break;
+				}
+				if (nng_aio_get_msg(aio) != m) {
+					vf_violation("C08/lossless/failed-send-took-message",
+					    "%s %s dir=%d seq %d: aio send failed with %s but the message is no longer attached to the aio (%p)",
+					    c->pk->name, vf_tran_names[c->tran], d->dir, i, nng_strerror(rv), (void *) nng_aio_get_msg(aio));
+					atomic_store(&d->bad, 1);
+					m = NULL;
+					break;
+				}
+				nng_aio_set_msg(aio, NULL);
+				if (rv != NNG_ETIMEDOUT && rv != NNG_ECANCELED) {
+					break;
+				}
+				atomic_fetch_add(&d->send_fails, 1);
+			}
+			if (rv != 0) {
+				if (m != NULL) {
+					nng_msg_free(m);
+				}
+				if (!atomic_load(&c->abort) && !atomic_load(&d->bad)) {
+					atomic_store(&d->send_rv, rv);
+				}
+				break;
+			}
+			atomic_fetch_add(&d->accepted, 1);
+		}
+		nng_aio_free(aio);
 	} else {
 		for (int j = 0; j < d->swin; j++) {
 			d->slots[j].d    = d;
@@ -568,8 +727,11 @@ sender_thread(void *arg)
 			}
 			nng_aio_set_timeout(d->slots[j].aio, NNG_DURATION_INFINITE);
 		}
-		for (int i = 0; i < d->n; i++) {
+		for (int i = 0; i < d->ntot; i++) {
 			int j = -1;
+			if (i == d->n) {
+				wait_cut(c);
+			}
 			pthread_mutex_lock(&d->mtx);
 			for (;;) {
 				for (int k = 0; k < d->swin; k++) {
@@ -648,7 +810,7 @@ receiver_thread(void *arg)
 	scase   *c = d->c;
 	vf_rng   r;
 	nng_aio *aios[8] = { 0 };
-	int      w = d->rmode == 2 ? d->rwin : d->rmode == 1 ? 1 : 0;
+	int      w = d->rmode == RM_RING ? d->rwin : (d->rmode == RM_AIO || d->rmode == RM_SHORT) ? 1 : 0;
 	vf_rng_seed(&r, d->key, 0x7e);
 	for (int j = 0; j < w; j++) {
 		if (nng_aio_alloc(&aios[j], NULL, NULL) != 0) {
@@ -657,21 +819,24 @@ receiver_thread(void *arg)
 		nng_aio_set_timeout(aios[j], NNG_DURATION_INFINITE);
 	}
 	int posted = 0; // number of receives submitted so far (ring mode)
-	if (d->rmode == 2) {
-		for (int j = 0; j < w && posted < d->n; j++, posted++) {
+	if (d->rmode == RM_RING) {
+		for (int j = 0; j < w && posted < d->ntot; j++, posted++) {
 			nng_socket_recv(d->rx, aios[j]);
 		}
 	}
-	int i;
-	for (i = 0; i < d->n && !atomic_load(&c->abort); i++) {
+	long exp  = 0; // next sequence number expected
+	long nget = 0; // messages taken so far
+	while (exp < d->ntot && !atomic_load(&c->abort)) {
 		nng_msg *m  = NULL;
 		int      rv = 0;
-		maybe_pause(d, i);
+		maybe_pause(d, (int) exp);
 		jitter(&r, d->rjit);
 		atomic_store(&d->in_recv, 1);
-		if (d->rmode == 0) {
+		switch (d->rmode) {
+		case RM_BLOCK:
 			rv = nng_recvmsg(d->rx, &m, 0);
-		} else if (d->rmode == 1) {
+			break;
+		case RM_AIO:
 			nng_socket_recv(d->rx, aios[0]);
 			nng_aio_wait(aios[0]);
 			rv = (int) nng_aio_result(aios[0]);
@@ -679,38 +844,83 @@ receiver_thread(void *arg)
 				m = nng_aio_get_msg(aios[0]);
 				nng_aio_set_msg(aios[0], NULL);
 			}
-		} else {
-			// receives were submitted in order 0,1,2..; the i-th
-			// submission must complete with the i-th message
-			nng_aio *a = aios[i % w];
+			break;
+		case RM_RING: {
+			// receives were submitted in order 0,1,2..; the k-th
+			// submission must complete with the k-th message
+			nng_aio *a = aios[nget % w];
 			nng_aio_wait(a);
 			rv = (int) nng_aio_result(a);
 			if (rv == 0) {
 				m = nng_aio_get_msg(a);
 				nng_aio_set_msg(a, NULL);
 			}
+			break;
+		}
+		case RM_SHORT:
+			// a receive that times out or is cancelled must not
+			// swallow a message
+			for (;;) {
+				bool cancel = vf_chance(&r, 1, 3);
+				nng_aio_set_timeout(aios[0], cancel ? NNG_DURATION_INFINITE : (nng_duration) vf_range(&r, 1, 15));
+				nng_socket_recv(d->rx, aios[0]);
+				if (cancel) {
+					if (vf_chance(&r, 1, 2)) {
+						vf_usleep((int) vf_below(&r, 300));
+					}
+					nng_aio_cancel(aios[0]);
+				}
+				nng_aio_wait(aios[0]);
+				rv = (int) nng_aio_result(aios[0]);
+				if (rv == 0) {
+					m = nng_aio_get_msg(aios[0]);
+					nng_aio_set_msg(aios[0], NULL);
+					break;
+				}
+				if ((rv != NNG_ETIMEDOUT && rv != NNG_ECANCELED) || atomic_load(&c->abort)) {
+					break;
+				}
+				atomic_fetch_add(&d->recv_fails, 1);
+			}
+			break;
+		default: // RM_NONBLOCK
+			for (;;) {
+				rv = nng_recvmsg(d->rx, &m, NNG_FLAG_NONBLOCK);
+				if (rv != NNG_EAGAIN || atomic_load(&c->abort)) {
+					break;
+				}
+				atomic_fetch_add(&d->recv_fails, 1);
+				vf_usleep((int) vf_range(&r, 50, 400));
+			}
+			break;
 		}
 		atomic_store(&d->in_recv, 0);
 		if (rv != 0) {
-			atomic_store(&d->recv_rv, rv);
+			if (!atomic_load(&c->abort)) {
+				atomic_store(&d->recv_rv, rv);
+			}
 			break;
 		}
-		bool ok = check_msg(d, i, m);
+		long got = check_msg(d, exp, m);
 		nng_msg_free(m);
-		if (!ok) {
+		if (got < 0) {
 			atomic_store(&d->bad, 1);
 			break;
 		}
-		atomic_fetch_add(&d->received, 1);
-		if (d->rmode == 2 && posted < d->n) {
-			nng_socket_recv(d->rx, aios[i % w]);
+		exp = got + 1;
+		nget++;
+		// (a seq lost with a replaced connection counts as consumed: it
+		// occupies no buffer any more)
+		atomic_store(&d->received, exp);
+		if (d->rmode == RM_RING && posted < d->ntot && exp < d->ntot) {
+			nng_socket_recv(d->rx, aios[(nget - 1) % w]);
 			posted++;
 		}
 	}
 	for (int j = 0; j < w; j++) {
 		nng_aio_stop(aios[j]);
 		nng_msg *m = nng_aio_result(aios[j]) == 0 ? nng_aio_get_msg(aios[j]) : NULL;
-		if (m != NULL && d->rmode == 2 && i < d->n) {
+		if (m != NULL && d->rmode == RM_RING && exp < d->ntot) {
 			nng_msg_free(m); // completed but unprocessed after an abort
 		}
 		nng_aio_free(aios[j]);
@@ -884,7 +1094,7 @@ close_extras(scase *c)
 	c->nx = 0;
 }
 
-enum { EV_RESIZE, EV_XNNG, EV_XRAW, EV_DECOY, EV_SIDEDOOR };
+enum { EV_RESIZE, EV_XNNG, EV_XRAW, EV_DECOY, EV_SIDEDOOR, EV_REPLACE };
 typedef struct {
 	long at;
 	int  kind;
@@ -948,15 +1158,17 @@ handle_pause(scase *c, dirst *d, vf_rng *r)
 	vf_stat(blocked ? "pauses_sender_blocked" : "pauses_all_absorbed", 1);
 	vf_stat_max("max_accepted_while_paused", inflight);
 	int txw = d->dir, rxw = 1 - d->dir;
-	if (c->tran == VF_T_INPROC) {
+	if (c->tran == VF_T_INPROC && !(c->replace && atomic_load(&c->cut_started))) {
+		// (not after a replaced connection: what died with the old pipe
+		// is still counted as undelivered until the receiver sees the gap)
 		// inproc has no buffering of its own: wmq + 1 in the pipe's send
 		// aio + rmq + 1 held in the pipe's recv aio (+ posted receives)
-		long bound = c->sbuf[txw] + c->rbuf[rxw] + 2 + (d->rmode == 2 ? d->rwin : 0);
+		long bound = c->sbuf[txw] + c->rbuf[rxw] + 2 + (d->rmode == RM_RING ? d->rwin : 0);
 		if (inflight > bound) {
 			vf_violation("C08/backpressure/accepted-beyond-buffers",
 			    "%s: inproc dir=%d: reader paused, %ld sends accepted but not delivered; SENDBUF %d + RECVBUF %d + 2 in-flight slots%s = %ld",
 			    c->ctx, d->dir, inflight, c->sbuf[txw], c->rbuf[rxw],
-			    d->rmode == 2 ? " + posted receives" : "", bound);
+			    d->rmode == RM_RING ? " + posted receives" : "", bound);
 		}
 		if (blocked) {
 			vf_stat("inproc_blocked_pauses", 1);
@@ -995,6 +1207,7 @@ stream_case(long idx, vf_rng *r)
 	int  pert  = (int) vf_below(r, 3);
 	bool bulk  = c->tran != VF_T_INPROC && vf_chance(r, 1, 8);
 	int  nbase = bulk ? 90 : (int) vf_range(r, 30, thorough ? 400 : 160);
+	c->replace = !bulk && vf_chance(r, 1, 4);
 	for (int k = 0; k < 2; k++) {
 		dirst *d = &c->d[k];
 		d->c     = c;
@@ -1003,28 +1216,31 @@ stream_case(long idx, vf_rng *r)
 		d->n     = nbase + (int) vf_below(r, 20);
 		d->bulk  = bulk;
 		d->key   = vf_rand(r);
-		d->smode = vf_chance(r, 2, 5) ? 0 : 1;
+		static const int smodes[] = { SM_BLOCK, SM_BLOCK, SM_WINDOW, SM_WINDOW, SM_WINDOW, SM_SHORT, SM_SHORT, SM_NONBLOCK };
+		d->smode = smodes[vf_below(r, 8)];
 		d->swin  = 0;
-		if (d->smode == 1) {
+		if (d->smode == SM_WINDOW) {
 			static const int wins[] = { 2, 3, 5, 8, 16 };
 			d->swin = vf_chance(r, 1, 6) ? (d->n < MAXWIN ? d->n : MAXWIN) : wins[vf_below(r, 5)];
 		}
-		d->rmode  = (int) vf_below(r, 3);
-		d->rwin   = d->rmode == 2 ? (int) vf_range(r, 2, 4) : 0;
+		static const int rmodes[] = { RM_BLOCK, RM_BLOCK, RM_AIO, RM_RING, RM_RING, RM_SHORT, RM_SHORT, RM_NONBLOCK };
+		d->rmode  = rmodes[vf_below(r, 8)];
+		d->rwin   = d->rmode == RM_RING ? (int) vf_range(r, 2, 4) : 0;
 		d->npause = (int) vf_range(r, 1, bulk ? 1 : 3);
 		for (int p = 0; p < d->npause; p++) {
 			d->pause_at[p] = (int) vf_range(r, 1, (uint32_t) d->n - 2);
 		}
 		d->sjit = vf_chance(r, 1, 2) ? (int) vf_range(r, 3, 30) : 0;
 		d->rjit = vf_chance(r, 1, 2) ? (int) vf_range(r, 3, 30) : 0;
+		d->ntot = d->n + (c->replace ? 1 : 0);
 		pthread_mutex_init(&d->mtx, NULL);
 		pthread_cond_init(&d->cv, NULL);
 	}
 	snprintf(c->ctx, sizeof(c->ctx), "%s", c->pk->name);
-	vf_case_begin(idx, "stream %s %s sb=%d/%d rb=%d/%d n=%d/%d smode=%d.%d/%d.%d rmode=%d/%d pert=%d bulk=%d",
+	vf_case_begin(idx, "stream %s %s sb=%d/%d rb=%d/%d n=%d/%d smode=%d.%d/%d.%d rmode=%d/%d pert=%d bulk=%d replace=%d",
 	    c->pk->name, vf_tran_names[c->tran], c->sbuf[0], c->sbuf[1], c->rbuf[0], c->rbuf[1],
 	    c->d[0].n, c->d[1].n, c->d[0].smode, c->d[0].swin, c->d[1].smode, c->d[1].swin,
-	    c->d[0].rmode, c->d[1].rmode, pert, bulk);
+	    c->d[0].rmode, c->d[1].rmode, pert, bulk, (int) c->replace);
 	vf_watchdog(180);
 
 	if (pert == 1) {
@@ -1079,7 +1295,13 @@ stream_case(long idx, vf_rng *r)
 	}
 	for (int k = 0; k < nxtra; k++) {
 		static const int kinds[] = { EV_XNNG, EV_XRAW, EV_XRAW, EV_DECOY };
-		evs[nev++] = (sevent){ (long) vf_below(r, (uint32_t) total), kinds[vf_below(r, 4)] };
+		int              kind    = kinds[vf_below(r, 4)];
+		// while the connection is being replaced a redialling extra peer
+		// could legitimately become THE peer: only one-shot raw extras then
+		evs[nev++] = (sevent){ (long) vf_below(r, (uint32_t) total), c->replace ? EV_XRAW : kind };
+	}
+	if (c->replace) {
+		evs[nev++] = (sevent){ (long) vf_range(r, (uint32_t) total / 5, (uint32_t) (3 * total / 5)), EV_REPLACE };
 	}
 	for (int i = 1; i < nev; i++) { // insertion sort by threshold
 		sevent e = evs[i];
@@ -1168,9 +1390,74 @@ stream_case(long idx, vf_rng *r)
 			case EV_DECOY:
 				launch_decoy(c, r);
 				break;
+			case EV_REPLACE: {
+				// The connection goes away under traffic (closed on the
+				// listening or on the dialling socket); B's dialer
+				// brings up the successor.  From then on the stream
+				// must again be lossless; across the cut it must stay
+				// in order and at-most-once (check_msg).
+				int      side = (int) vf_below(r, 2);
+				monsnap  m0   = mon_get(side == 0 ? &c->ma : &c->mb);
+				nng_pipe np;
+				memset(&np, 0, sizeof(np));
+				np.id = m0.first_id;
+				if (m0.live != 1 || np.id == 0) {
+					atomic_store(&c->cut_skipped, 1);
+					break; // (unexpected disconnect: handled at the end)
+				}
+				atomic_store(&c->cuts, 1);
+				atomic_store(&c->cut_started, 1);
+				nng_pipe_close(np);
+				uint64_t end = vf_now_ns() + 10000ULL * 1000000ULL;
+				bool     up  = false;
+				while (vf_now_ns() < end) {
+					monsnap a = mon_get(&c->ma), b = mon_get(&c->mb);
+					if (a.post >= 2 && b.post >= 2 && a.live == 1 && b.live == 1 &&
+					    a.rem_live == 1 && b.rem_live >= 1) {
+						up = true;
+						break;
+					}
+					// A socket that neither reads nor sends cannot notice
+					// that its peer has gone (and rightly refuses the
+					// successor): keep both applications reading.
+					for (int k = 0; k < 2; k++) {
+						dirst *d = &c->d[k];
+						if (atomic_load(&d->paused) && !atomic_load(&d->resume)) {
+							pthread_mutex_lock(&d->mtx);
+							atomic_store(&d->resume, 1);
+							pthread_cond_broadcast(&d->cv);
+							pthread_mutex_unlock(&d->mtx);
+							vf_stat("pauses_cut_short_by_replacement", 1);
+						}
+					}
+					vf_usleep(200);
+				}
+				if (!up) {
+					monsnap a = mon_get(&c->ma), b = mon_get(&c->mb);
+					vf_violation("C08/one-peer/successor-not-accepted",
+					    "%s %s: 10 s after the only connection was closed (on the %s socket) the redialling peer is still not attached (listener side: %ld attached, %ld refused; dialer side: %ld attached, %ld refused)",
+					    c->pk->name, vf_tran_names[c->tran], side == 0 ? "listening" : "dialling",
+					    a.post, a.rem_refused, b.post, b.rem_refused);
+					failed = true;
+					break;
+				}
+				for (int k = 0; k < 2; k++) {
+					atomic_store(&c->cut_hi[k], atomic_load(&c->d[k].submitted));
+				}
+				atomic_store(&c->cut_done, 1);
+				vf_stat("replacements", 1);
+				vf_class("replace/%s/%s/%s-side", c->pk->name, vf_tran_names[c->tran], side == 0 ? "listening" : "dialling");
+				break;
+			}
+			}
+			if (failed) {
+				break;
 			}
 			evi++;
 			last_prog = vf_now_ns();
+		}
+		if (failed) {
+			break;
 		}
 		for (int k = 0; k < c->nx; k++) {
 			if (c->x[k].sent < 3) {
@@ -1247,24 +1534,52 @@ stream_case(long idx, vf_rng *r)
 	if (clean) {
 		long refused = sa.rem_refused + sb.rem_refused;
 		vf_stat("cases", 1);
-		vf_stat("delivered_in_order", c->d[0].n + c->d[1].n);
+		long lost = atomic_load(&c->d[0].lost_at_cut) + atomic_load(&c->d[1].lost_at_cut);
+		vf_stat("delivered_in_order", c->d[0].ntot + c->d[1].ntot - lost);
+		if (c->replace && atomic_load(&c->cut_done)) {
+			vf_stat("replaced_streams_completed", 2);
+			vf_stat("lost_at_cut", lost);
+			for (int k = 0; k < 2; k++) {
+				vf_stat("delivered_after_replacement", c->d[k].ntot - atomic_load(&c->cut_hi[k]));
+			}
+			if (lost > 0) {
+				vf_stat("replacements_with_loss", 1);
+			}
+		}
+		for (int k = 0; k < 2; k++) {
+			dirst *d = &c->d[k];
+			long   sf = atomic_load(&d->send_fails), rf = atomic_load(&d->recv_fails);
+			if (d->smode == SM_SHORT) {
+				vf_stat("send_timeouts_or_cancels", sf);
+			} else if (d->smode == SM_NONBLOCK) {
+				vf_stat("send_eagain", sf);
+			}
+			if (d->rmode == RM_SHORT) {
+				vf_stat("recv_timeouts_or_cancels", rf);
+			} else if (d->rmode == RM_NONBLOCK) {
+				vf_stat("recv_eagain", rf);
+			}
+			if (d->smode == SM_SHORT || d->smode == SM_NONBLOCK || d->rmode == RM_SHORT || d->rmode == RM_NONBLOCK) {
+				vf_stat("delivered_with_failing_ops", d->n - atomic_load(&d->lost_at_cut));
+			}
+		}
 		vf_stat("refused_pipes", refused);
 		if (sa.maxlive == 1 && sb.maxlive == 1) {
 			vf_stat("onepeer_cases_with_extras", (refused > 0 || refused_raw > 0) ? 1 : 0);
 		}
 		for (int k = 0; k < 2; k++) {
 			dirst *d = &c->d[k];
-			vf_class("stream/%s/%s/s%s%s/r%d/sb%d/rb%d%s", c->pk->name, vf_tran_names[c->tran],
-			    smode_name(d), d->swin >= 16 ? "-wide" : "", d->rmode,
+			vf_class("stream/%s/%s/s%s%s/r%s/sb%d/rb%d%s", c->pk->name, vf_tran_names[c->tran],
+			    smode_name(d), d->swin >= 16 ? "-wide" : "", rm_names[d->rmode],
 			    c->sbuf[k] > 4 ? 5 : c->sbuf[k], c->rbuf[1 - k] > 4 ? 5 : c->rbuf[1 - k],
 			    atomic_load(&c->sb_grown[k]) ? "/sbgrown" : "");
 		}
 		if ((idx % 16) == 0) {
-			vf_sample("{\"mode\":\"stream\",\"proto\":\"%s\",\"tran\":\"%s\",\"msgs\":[%d,%d],\"sendbuf_end\":[%d,%d],\"recvbuf_end\":[%d,%d],\"sender\":[\"%s/%d\",\"%s/%d\"],\"receiver_mode\":[%d,%d],\"pauses\":[%d,%d],\"refused_pipes\":%ld,\"raw_extras_refused\":%ld}",
+			vf_sample("{\"mode\":\"stream\",\"proto\":\"%s\",\"tran\":\"%s\",\"msgs\":[%d,%d],\"sendbuf_end\":[%d,%d],\"recvbuf_end\":[%d,%d],\"sender\":[\"%s/%d\",\"%s/%d\"],\"receiver\":[\"%s\",\"%s\"],\"pauses\":[%d,%d],\"refused_pipes\":%ld,\"raw_extras_refused\":%ld,\"connection_replaced\":%d,\"lost_at_cut\":%ld}",
 			    c->pk->name, vf_tran_names[c->tran], c->d[0].n, c->d[1].n, c->sbuf[0], c->sbuf[1],
 			    c->rbuf[0], c->rbuf[1], smode_name(&c->d[0]), c->d[0].swin, smode_name(&c->d[1]),
-			    c->d[1].swin, c->d[0].rmode, c->d[1].rmode, c->d[0].npause, c->d[1].npause,
-			    refused, refused_raw);
+			    c->d[1].swin, rm_names[c->d[0].rmode], rm_names[c->d[1].rmode], c->d[0].npause, c->d[1].npause,
+			    refused, refused_raw, (int) atomic_load(&c->cut_done), lost);
 		}
 	} else {
 		vf_stat("cases_aborted", 1);
@@ -1302,6 +1617,7 @@ typedef struct {
 	uint64_t    rxseq;  // sequence of frames sent by the raw partner
 	uint64_t    outseq; // sequence of messages sent by the socket
 	long        conns;
+	int         rcvbuf;
 	const char *sname;
 } hcase;
 
@@ -1373,17 +1689,23 @@ typedef struct {
 } hrecv;
 
 // infinite-timeout receive bounded by our own deadline (cancel after 10 s)
-static hrecv
-hop_recv(hcase *h, int wait_ms)
+static nng_aio *
+hop_recv_post(hcase *h)
 {
-	hrecv    o;
 	nng_aio *a = NULL;
-	memset(&o, 0, sizeof(o));
 	if (nng_aio_alloc(&a, NULL, NULL) != 0) {
 		vf_harness_fail("aio alloc");
 	}
 	nng_aio_set_timeout(a, NNG_DURATION_INFINITE);
 	nng_socket_recv(h->s, a);
+	return a;
+}
+
+static hrecv
+hop_recv_wait(nng_aio *a, int wait_ms)
+{
+	hrecv o;
+	memset(&o, 0, sizeof(o));
 	uint64_t end = vf_now_ns() + (uint64_t) wait_ms * 1000000ULL;
 	while (nng_aio_busy(a) && vf_now_ns() < end) {
 		vf_usleep(100);
@@ -1406,6 +1728,228 @@ hop_recv(hcase *h, int wait_ms)
 		o.rc = 2;
 	}
 	return o;
+}
+
+static hrecv
+hop_recv(hcase *h, int wait_ms)
+{
+	return hop_recv_wait(hop_recv_post(h), wait_ms);
+}
+
+static bool hop_outgoing(hcase *h, nng_msg *fwd, uint32_t inhop, vf_rng *r);
+static void hop_connect(hcase *h);
+
+// A burst: 3-6 frames (valid and over-TTL mixed, then a valid sentinel or a
+// malformed frame) written back-to-back in one write before anything is
+// received - so that over-TTL / malformed frames arrive while the receive
+// queue holds messages or is full (RECVBUF 0..2 < burst), optionally while a
+// receive is already parked and while the socket is sending.  Expected: the
+// valid frames, in order, exactly; nothing else; a malformed last frame
+// disconnects after the valid ones before it were delivered.
+// returns false if the case must stop (verdict recorded)
+typedef struct {
+	uint32_t hop;
+	uint64_t seq;
+	size_t   len;
+	int      kind; // 0 valid, 1 over-TTL, 2 malformed hop, 3 short frame
+} bframe;
+
+// message 'o' was delivered where valid frame #k of the burst is expected
+// (first candidate #from); frees the message; false = verdict recorded
+static bool
+burst_judge(hcase *h, int tran, const char *pat, hrecv *o, const bframe *f, int n, int k, int from)
+{
+	bool ok = k < n && f[k].kind == 0 && o->rc == 0 && o->tag == TAG_HOP && o->seq == f[k].seq && o->len == f[k].len;
+	if (!ok) {
+		const char *key = "C08/order/foreign-message";
+		if (o->rc == 0 && o->tag == TAG_INTRUDER) {
+			key = "C08/one-peer/intruder-message-delivered";
+		} else if (o->rc == 0 && o->tag == TAG_HOP) {
+			key = (from < n && o->seq < f[from].seq) ? "C08/order/duplicate-or-late/hop-burst" : "C08/order/skipped-or-early/hop-burst";
+			for (int j = 0; j < n; j++) {
+				if (f[j].kind == 1 && f[j].seq == o->seq) {
+					key = "C08/hop/over-ttl-delivered";
+				} else if (f[j].kind == 2 && f[j].seq == o->seq) {
+					key = "C08/hop/malformed-delivered/hop-over-0xff";
+				} else if (f[j].kind == 0 && f[j].seq == o->seq && j < from) {
+					key = "C08/order/duplicate-or-late/hop-burst";
+				}
+			}
+		} else if (o->rc == 2 && pat[n - 1] == 'S') {
+			key = "C08/hop/malformed-delivered/short-frame";
+		}
+		vf_violation(key,
+		    "%s %s ttl=%d burst %s (recvbuf %d): expecting valid frame #%d or later, received tag %08x seq %llu len %zu rc %d",
+		    h->sname, vf_tran_names[tran], h->ttl, pat, h->rcvbuf, from, o->tag, (unsigned long long) o->seq, o->len, o->rc);
+		nng_msg_free(o->msg);
+		return false;
+	}
+	if (h->sraw && (o->hlen != 4 || o->hdr != f[k].hop)) {
+		vf_violation("C08/hop/raw-header-not-wire-hop",
+		    "%s ttl=%d burst %s: frame with hop word %u delivered with header len %zu value %u", h->sname, h->ttl, pat, f[k].hop, o->hlen, o->hdr);
+		nng_msg_free(o->msg);
+		return false;
+	}
+	nng_msg_free(o->msg);
+	return true;
+}
+
+static bool
+hop_burst(hcase *h, vf_rng *r, int tran)
+{
+	bframe f[8];
+	uint8_t buf[8 * (9 + 4 + VF_BODY_MIN + 64)];
+	size_t  off = 0;
+	char    pat[12];
+	int     n        = (int) vf_range(r, 3, 6);
+	bool    mal_last = vf_chance(r, 1, 4);
+	bool    parked   = vf_chance(r, 1, 3);
+	bool    sending  = !mal_last && vf_chance(r, 1, 3);
+	int     nvalid = 0, ndrop = 0;
+	for (int k = 0; k < n; k++) {
+		bool last = k == n - 1;
+		f[k].len  = VF_BODY_MIN + vf_below(r, 64);
+		f[k].seq  = 0;
+		if (last && mal_last) {
+			f[k].kind = vf_chance(r, 1, 3) ? 3 : 2;
+			f[k].hop  = vf_chance(r, 1, 2) ? 0x100u + vf_below(r, 0x100) : ((uint32_t) vf_rand(r) | 0x100u);
+			if (f[k].kind == 3) {
+				f[k].len = vf_below(r, 4);
+			}
+		} else if (last || vf_chance(r, 1, 2)) {
+			f[k].kind = 0;
+			f[k].hop  = vf_below(r, (uint32_t) h->ttl + 1);
+		} else {
+			f[k].kind = 1;
+			f[k].hop  = vf_range(r, (uint32_t) h->ttl + 1, 0xff);
+		}
+		if (f[k].kind != 3) {
+			f[k].seq = h->rxseq++;
+		}
+		pat[k] = "VDMS"[f[k].kind];
+		nvalid += f[k].kind == 0;
+		ndrop += f[k].kind == 1;
+		// frame: [ipc: 1][8-byte length][payload]
+		size_t plen = f[k].kind == 3 ? f[k].len : 4 + f[k].len;
+		if (h->ipc) {
+			buf[off++] = 1;
+		}
+		for (int b = 7; b >= 0; b--) {
+			buf[off++] = (uint8_t) ((uint64_t) plen >> (8 * b));
+		}
+		if (f[k].kind == 3) {
+			memset(buf + off, 0, plen);
+		} else {
+			put32(buf + off, f[k].hop);
+			vf_body_make(buf + off + 4, f[k].len, TAG_HOP, f[k].seq);
+		}
+		off += plen;
+	}
+	pat[n] = 0;
+	nng_aio *pre = parked ? hop_recv_post(h) : NULL;
+	if (parked) {
+		vf_usleep((int) vf_below(r, 500)); // give it a chance to be parked
+	}
+	if (vf_fd_write_all(h->fd, buf, off, 5000) != 0) {
+		vf_harness_fail("raw partner burst write");
+	}
+	if (sending && !hop_outgoing(h, NULL, 0, r)) {
+		if (pre != NULL) {
+			nng_aio_stop(pre);
+			if (nng_aio_result(pre) == 0) {
+				nng_msg_free(nng_aio_get_msg(pre));
+			}
+			nng_aio_free(pre);
+		}
+		return false;
+	}
+	bool dropped_before = false;
+	int  delivered = 0;
+	for (int k = 0; k < n && !mal_last; k++) {
+		// the connection stays up: every valid frame, in order, exactly
+		if (f[k].kind == 1) {
+			dropped_before = true;
+		}
+		if (f[k].kind != 0) {
+			continue;
+		}
+		hrecv o = pre != NULL ? hop_recv_wait(pre, 10000) : hop_recv(h, 10000);
+		pre     = NULL;
+		if (o.rc == 1) {
+			bool closed = vf_fd_wait_eof(h->fd, 50) != 0;
+			vf_violation(!dropped_before ? "C08/hop/within-ttl-not-delivered" : closed ? "C08/hop/over-ttl-disconnected" : "C08/hop/valid-frame-after-drop-not-delivered",
+			    "%s %s ttl=%d burst %s (recvbuf %d): valid frame #%d (hop %u) not delivered within 10 s; connection %s",
+			    h->sname, vf_tran_names[tran], h->ttl, pat, h->rcvbuf, k, f[k].hop, closed ? "was closed by the socket" : "still open");
+			return false;
+		}
+		if (!burst_judge(h, tran, pat, &o, f, n, k, k)) {
+			return false;
+		}
+		delivered++;
+	}
+	if (mal_last) {
+		// The malformed last frame ends the connection; what was sent
+		// before it may or may not make it (the connection does not stay
+		// up), but whatever is delivered is an in-order, duplicate-free
+		// selection of the valid frames - never a dropped or the malformed
+		// one - and the sender is disconnected.  The socket reads on only
+		// as the application drains, so drain while waiting for EOF.
+		bool     shortf = f[n - 1].kind == 3;
+		int      next   = 0;
+		bool     closed = false;
+		uint64_t end    = vf_now_ns() + 10000ULL * 1000000ULL;
+		for (;;) {
+			hrecv o = pre != NULL ? hop_recv_wait(pre, 20) : hop_recv(h, closed ? 0 : delivered >= nvalid ? 1 : 20);
+			pre     = NULL;
+			if (o.rc != 1) {
+				int j = next;
+				while (j < n && !(f[j].kind == 0 && o.rc == 0 && o.tag == TAG_HOP && o.seq == f[j].seq)) {
+					j++;
+				}
+				if (!burst_judge(h, tran, pat, &o, f, n, j < n ? j : next, next)) {
+					return false;
+				}
+				next = j + 1;
+				delivered++;
+				continue;
+			}
+			if (closed) {
+				break; // closed, quiescent, and nothing more to take
+			}
+			if (fd_is_closed(h->fd)) {
+				closed = true;
+				vf_quiesce(1, 3000);
+				continue;
+			}
+			if (vf_now_ns() > end) {
+				vf_violation(shortf ? "C08/hop/malformed-not-disconnected/short-frame" : "C08/hop/malformed-not-disconnected/hop-over-0xff",
+				    "%s %s ttl=%d burst %s: sender still connected 10 s after the malformed last frame (application drained %d messages)",
+				    h->sname, vf_tran_names[tran], h->ttl, pat, delivered);
+				return false;
+			}
+		}
+		close(h->fd);
+		h->fd = -1;
+		hop_connect(h);
+		vf_stat("burst_malformed_last_verified", 1);
+		if (delivered == nvalid) {
+			vf_stat("burst_malformed_last_all_valid_delivered", 1);
+		}
+	}
+	vf_stat("bursts_verified", 1);
+	vf_stat("burst_frames_judged", n);
+	vf_stat("burst_drops_verified", ndrop);
+	if (parked) {
+		vf_stat("bursts_with_parked_receive", 1);
+	}
+	if (sending) {
+		vf_stat("bursts_while_sending", 1);
+	}
+	if (nvalid > h->rcvbuf + 1) {
+		vf_stat("bursts_overrunning_recvbuf", 1);
+	}
+	vf_class("burst/%s/rb%d/%s%s%s", h->sname, h->rcvbuf, pat, parked ? "/parked" : "", sending ? "/sending" : "");
+	return true;
 }
 
 // The socket sends; the raw partner must read hop word 'want'.
@@ -1519,7 +2063,8 @@ hop_case(long idx, int ttl0, bool sraw, int tran, vf_rng *r)
 	nng_socket_set_ms(h.s, NNG_OPT_SENDTIMEO, NNG_DURATION_INFINITE);
 	nng_socket_set_ms(h.s, NNG_OPT_RECVTIMEO, NNG_DURATION_INFINITE);
 	nng_socket_set_int(h.s, NNG_OPT_SENDBUF, (int) vf_below(r, 3));
-	nng_socket_set_int(h.s, NNG_OPT_RECVBUF, (int) vf_below(r, 3));
+	h.rcvbuf = (int) vf_below(r, 3);
+	nng_socket_set_int(h.s, NNG_OPT_RECVBUF, h.rcvbuf);
 	if ((rv = nng_socket_set_int(h.s, NNG_OPT_MAXTTL, h.ttl)) != 0) {
 		vf_harness_fail("set maxttl %d: %s", h.ttl, nng_strerror(rv));
 	}
@@ -1688,6 +2233,11 @@ hop_case(long idx, int ttl0, bool sraw, int tran, vf_rng *r)
 		}
 		if (!stop && vf_chance(r, 1, 4)) {
 			if (!hop_outgoing(&h, NULL, 0, r)) {
+				stop = true;
+			}
+		}
+		if (!stop && vf_chance(r, 1, 5)) {
+			if (!hop_burst(&h, r, tran)) {
 				stop = true;
 			}
 		}
